@@ -16,10 +16,12 @@ pub mod prop_c04;
 pub mod prop_c05;
 pub mod prop_c06;
 pub mod prop_c07;
+pub mod prop_c07_patch;
 pub mod prop_c08;
 pub mod prop_c08_scan;
 pub mod prop_c09;
 pub mod prop_c10;
+pub mod prop_c10_hist;
 pub mod prop_c11;
 pub mod prop_c12;
 pub mod prop_c13;
